@@ -1042,12 +1042,16 @@ MUTANTS = [
            expect_rule="retry/"),
     Mutant("repeated-stop-answers-immediately", CS, "        super().stopService()\n        return self._machine.stop()", "        if not self.running:\n            return succeed(None)\n        super().stopService()\n        return self._machine.stop()",
            expect_rule="service/forwards-to-machine"),
+    Mutant("revert-F58w-stop-before-start-cancels-waiters", CS, "    @pep614(Init.upon(_Client.stop).to(Stopped))\n    def stopBeforeStart(c: _Client, s: _Core) -> Deferred[None]:\n        # whenConnected may have been called before the service was started.\n        s.cancelConnectWaiters()\n        return succeed(None)\n\n    @pep614(Stopped.upon(_Client.stop).to(Stopped))\n",
+           "    @pep614(Init.upon(_Client.stop).to(Stopped))\n    @pep614(Stopped.upon(_Client.stop).to(Stopped))\n", expect_rule="waiters/resolved-on-entry"),
     Mutant("service-start-unguarded-double", CS, "        super().startService()\n        self._machine.start()\n", "        super().startService()\n", expect_rule="service/forwards-to-machine"),
 ]
 SILENT = [
     Silent("loop-written-as-to-self", CS, "    Connecting.upon(_Client.start).loop().returns(None)\n", "    Connecting.upon(_Client.start).to(Connecting).returns(None)\n"),
-    Silent("decorator-to-plain-registration", CS, "    @pep614(Init.upon(_Client.stop).to(Stopped))\n    @pep614(Stopped.upon(_Client.stop).to(Stopped))\n    def immediateStop(c: _Client, s: _Core) -> Deferred[None]:\n        return succeed(None)\n",
-           "    def immediateStop(c: _Client, s: _Core) -> Deferred[None]:\n        return succeed(None)\n\n    Init.upon(_Client.stop).to(Stopped)(immediateStop)\n    Stopped.upon(_Client.stop).loop()(immediateStop)\n"),
+    Silent("decorator-to-plain-registration", CS, "    @pep614(Stopped.upon(_Client.stop).to(Stopped))\n    def immediateStop(c: _Client, s: _Core) -> Deferred[None]:\n        return succeed(None)\n",
+           "    def immediateStop(c: _Client, s: _Core) -> Deferred[None]:\n        return succeed(None)\n\n    Stopped.upon(_Client.stop).loop()(immediateStop)\n"),
+    Silent("stop-before-start-shares-cancel-helper", CS, "        # whenConnected may have been called before the service was started.\n        s.cancelConnectWaiters()\n        return succeed(None)\n",
+           "        s.unawait(Failure(CancelledError()))\n        return succeed(None)\n"),
     Silent("cancel-before-wait", CS, "        waited = s.waitForStop()\n        attempt.cancel()\n        return waited\n", "        attempt.cancel()\n        waited = s.waitForStop()\n        return waited\n"),
     Silent("unawait-explicit-swap", CS, "        self.awaitingConnected, waiting = [], self.awaitingConnected\n", "        waiting = self.awaitingConnected\n        self.awaitingConnected = []\n"),
     Silent("duplicate-state-declaration-removed", CS, "    Restarting = machine.state(\"Restarting\")\n    Stopped = machine.state(\"Stopped\")\n", "    Restarting = machine.state(\"Restarting\")\n"),
